@@ -220,6 +220,13 @@ func VerifC01FlagOverride() {
 	}
 	rest := append([]op.Instance{}, got.instances[1:]...)
 	vf.Assert("flags-touch-only-the-first-instance", verifSameInstances(rest, base.instances[1:]))
+	// (the flags are persistent, the reference command may see them too: what the later
+	// instances say is also stated outright — the closing chord modulates to G and is played ff)
+	last := got.instances[len(got.instances)-1]
+	vf.Assert("later-key-change-survives-the-flags", last.Key != nil && last.Key.String() == "G" && last.Velocity != nil && *last.Velocity == op.Fortissimo && last.BPM == nil && last.Meter == nil)
+	for _, mid := range got.instances[1 : len(got.instances)-1] {
+		vf.Assert("instances-without-settings-get-none", mid.Key == nil && mid.Velocity == nil && mid.BPM == nil && mid.Meter == nil)
+	}
 	vf.Reach("end")
 }
 
@@ -903,6 +910,92 @@ func VerifC16ChordFiles() {
 			same = attrs[i].Name == want[i]
 		}
 		vf.Assert("chord-inherits-across-files", same)
+	}
+	vf.Reach("end")
+}
+
+// VerifC16AttrFiles: attributes supplied with --attr are part of the dictionary whichever other
+// flags are given (no --chord file, one that uses them, one that does not): a fresh name is
+// known, a built-in name is redefined for the built-in chords too, and a file with an unnamed
+// entry or a file that does not exist is refused.
+func VerifC16AttrFiles() {
+	attr, bad, chd, other := vf.TempPath("attrs.yml"), vf.TempPath("attrs-bad.yml"), vf.TempPath("attrs-chord.yml"), vf.TempPath("attrs-other.yml")
+	missing := vf.TempPath("attrs-missing.yml")
+	verifReset(attr, bad, chd, other, missing)
+	defer verifReset(attr, bad, chd, other, missing)
+	os.WriteFile(attr, []byte("- name: Blue5\n  degree: \"b5\"\n- name: Major3\n  degree: \"b3\"\n"), 0o644)
+	os.WriteFile(bad, []byte("- degree: \"3\"\n"), 0o644)
+	os.WriteFile(chd, []byte("- name: BlueTriad\n  meta:\n    display: blue\n  attributes: [Perfect1, Major3, Blue5]\n"), 0o644)
+	os.WriteFile(other, []byte("- name: Fifth\n  meta:\n    display: five\n  attributes: [Perfect1, Perfect5]\n"), 0o644)
+	var flags []string
+	attrC := vf.NondetIntRange("attr-file", 0, 3) // none, good, unnamed entry, missing file
+	switch attrC {
+	case 1:
+		flags = append(flags, "--attr", attr)
+	case 2:
+		flags = append(flags, "--attr", bad)
+	case 3:
+		flags = append(flags, "--attr", missing)
+	}
+	chordC := vf.NondetIntRange("chord-file", 0, 2) // none, one using the attributes, an unrelated one
+	if attrC != 1 && chordC == 1 {
+		chordC = 2
+	}
+	switch chordC {
+	case 1:
+		flags = append(flags, "--chord", chd)
+	case 2:
+		flags = append(flags, "--chord", other)
+	}
+	vf.Assert("flags-parse", infoCmdChordDescribe.ParseFlags(flags) == nil)
+	m, err := newChordMap(infoCmdChordDescribe)
+	infoCmdChordDescribe.ParseFlags([]string{"--attr", "", "--chord", ""})
+	if attrC >= 2 {
+		vf.Assert("broken-attr-file-refused-whatever-else-is-given", err != nil)
+		vf.Reach("end")
+		return
+	}
+	vf.Assert("consistent-dictionary-accepted", err == nil && m != nil)
+	if err != nil || m == nil {
+		return
+	}
+	semis := func(name string) []int {
+		as, ok := m.GetChordAttributes(name)
+		if !ok {
+			return nil
+		}
+		var r []int
+		for _, a := range as {
+			x, _ := a.Semitone()
+			r = append(r, int(x))
+		}
+		return r
+	}
+	same := func(a, b []int) bool {
+		if len(a) != len(b) {
+			return false
+		}
+		for i := range a {
+			if a[i] != b[i] {
+				return false
+			}
+		}
+		return true
+	}
+	b5, ok := m.GetAttribute("Blue5")
+	if attrC == 1 {
+		x, sok := b5.Semitone()
+		vf.Assert("fresh-attribute-known", ok && sok && int(x) == 6)
+		vf.Assert("redefined-attribute-holds-for-builtin-chords", same(semis("MajorTriad"), []int{0, 3, 7}) && same(semis(""), []int{0, 3, 7}) && same(semis("7"), []int{0, 3, 7, 10}))
+		if chordC == 1 {
+			vf.Assert("user-chord-uses-user-attributes", same(semis("blue"), []int{0, 3, 6}) && same(semis("BlueTriad"), []int{0, 3, 6}))
+		}
+	} else {
+		vf.Assert("no-attr-file-no-fresh-attribute", !ok)
+		vf.Assert("builtin-chords-as-built-in", same(semis("MajorTriad"), []int{0, 4, 7}) && same(semis("7"), []int{0, 4, 7, 10}))
+	}
+	if chordC == 2 {
+		vf.Assert("unrelated-user-chord-known", same(semis("five"), []int{0, 7}))
 	}
 	vf.Reach("end")
 }
